@@ -17,6 +17,8 @@ This generator parses di.py with `ast` (never imports it) and writes `lean/Tranp
   * `genCloneDI` / `genCloneLazy` / `genCombineDI` / `genCombineLazy` — the bodies of `_clone` and `combine` translated statement by
                       statement into Lean terms over the model's `Cont` / `Dict` (`{**a, **b}` = `Dict.merge`, a filtering dict
                       comprehension = `Dict.filterKeys`, `.copy()` = the same items; later statements see earlier assignments)
+and `lean/Tranp/Generated/DIMethods.lean` (translate/di_methods.py): the bodies of the registry methods and of `resolve` as `do`
+blocks, proved equal to the model functions (`methods_generated`).
 Props/C19.lean computes the transitive write sets from `recs` (kernel) and proves that the model writes nothing else
 (`code_effects`, `model_effects`, `state_fields`, `containers_own_their_dicts`).
 
@@ -30,9 +32,11 @@ import os
 from typing import Any
 
 from harness.common import GENERATED_DIR, REPO, write_if_changed
+from translate import di_methods
 
 SOURCE = 'rogw/tranp/lang/di.py'
 TARGET = os.path.join(GENERATED_DIR, 'DIState.lean')
+TARGET_METHODS = os.path.join(GENERATED_DIR, 'DIMethods.lean')
 FIELDS = {'__instances': 'instances', '__injectors': 'injectors', '__invocations': 'invocations', '__definitions': 'definitions'}
 CLASSES = ['DI', 'LazyDI']
 READ_METHODS = {'copy', 'items', 'values', 'keys', 'get'}
@@ -427,7 +431,11 @@ def load() -> dict[str, Any]:
 			for key in ('selfCalls', 'otherCalls', 'newCalls'):
 				r[key] = [(resolve(c.name, kind, name, 'DI'), resolve(c.name, kind, name, 'LazyDI')) for kind, name in r[key]]
 			recs.append({'cls': c.name, 'name': fn.name, 'line': fn.lineno, **r})
-	return {'sha': hashlib.sha256(text.encode()).hexdigest(), 'fields': fields, 'recs': recs, 'builders': builders(fns, methods)}
+	try:
+		method_defs = di_methods.translate(SOURCE, fns)
+	except di_methods.TranslateError as e:
+		raise TranslateError(str(e)) from e
+	return {'sha': hashlib.sha256(text.encode()).hexdigest(), 'fields': fields, 'recs': recs, 'builders': builders(fns, methods), 'methods': method_defs}
 
 
 def _fl(fs: list[str]) -> str:
@@ -474,10 +482,35 @@ def render(t: dict[str, Any]) -> str:
 	return '\n'.join(out)
 
 
+def render_methods(t: dict[str, Any]) -> str:
+	return '\n'.join([
+		'/-',
+		f'  GENERATED by verif/translate/gen_di_state.py (translate/di_methods.py) from {SOURCE} — do not edit.',
+		f"  source sha256 = {t['sha']}",
+		'',
+		'  The registry methods of DI / LazyDI and `resolve`, statement by statement, in the monad `PyM` of Model/DIPy.lean.',
+		"  `lazy'` = the receiver is a LazyDI (virtual `self.` calls dispatch on it); `invoke'` = `self.invoke`.",
+		'-/',
+		'import Tranp.Model.DIPy',
+		'',
+		'set_option linter.unusedVariables false',
+		'',
+		'namespace Tranp.Generated.DIMethods',
+		'open Tranp.DI',
+		'',
+		*t['methods'],
+		'end Tranp.Generated.DIMethods',
+		'',
+	])
+
+
 def generate() -> list[dict[str, Any]]:
 	t = load()
 	changed = write_if_changed(TARGET, render(t))
-	return [{'file': os.path.relpath(TARGET, os.path.dirname(GENERATED_DIR)), 'source': SOURCE, 'sha256': t['sha'], 'entries': len(t['recs']), 'changed': changed}]
+	changed_m = write_if_changed(TARGET_METHODS, render_methods(t))
+	rel = os.path.dirname(GENERATED_DIR)
+	return [{'file': os.path.relpath(TARGET, rel), 'source': SOURCE, 'sha256': t['sha'], 'entries': len(t['recs']), 'changed': changed},
+		{'file': os.path.relpath(TARGET_METHODS, rel), 'source': SOURCE, 'sha256': t['sha'], 'entries': sum(1 for ln in t['methods'] if ln.startswith('def ')), 'changed': changed_m}]
 
 
 if __name__ == '__main__':
